@@ -210,7 +210,7 @@ fn run_seq(sc: &Value) {
                     std::panic::panic_any(panics::UserPanic);
                 }));
                 crate::interpose::set_in_lib(false);
-                emit(json!({"ev":"PanicDrop","live":crate::interpose::owned_live(),"lock":__verif_lock_state()}));
+                emit(json!({"ev":"PanicDrop","live":crate::interpose::owned_live(),"lock":crate::hook::lock_state()}));
             }
             _ => {}
         }
